@@ -375,6 +375,8 @@ class Incarnation:
         if seams.ESCAPES:
             self.world.escapes.extend(f"{a} from {b}" for a, b in seams.ESCAPES)
             del seams.ESCAPES[:]
+        for p in self.pools + getattr(self.factory, "made", []):
+            self.world.pool_orders |= p.orders
         self.world.rng_runs.append(self.rng)
         return False
 
@@ -435,6 +437,7 @@ class World:
         self.violations = []
         self.escapes = []
         self.soft_escapes = []
+        self.pool_orders = set()
         self.rng_runs = []
         self.n_inc = 0
         self.probes = {}
